@@ -40,10 +40,25 @@ func (e *Engine) callResolved(fr *Frame, st *State, c *ssa.CallCommon, fn SV, ar
 		// anything to the heap and to the ghost state.
 		e.vc.oblige(e.oname(fr, "safety:nilfunc#"), st.pc, fmt.Sprintf("(not (= %s 0))", f.Term), "call of a nil function value at "+e.posStr(pos))
 		e.havocWholeHeap(st, "unknown function value called at "+e.posStr(pos))
+		// ghosts fvarg/fvres: the first (pointer or integer) argument and the boolean
+		// result of the most recent call through an unknown function value
+		if len(args) > 0 {
+			if fl := func() (out []string) { defer func() { recover() }(); return e.flatten(sig.Params().At(0).Type(), args[0]) }(); len(fl) == 1 {
+				if _, ok := st.ghost["fvarg"]; ok {
+					st.ghost["fvarg"] = fl[0]
+				}
+			}
+		}
 		if resT == nil {
 			return nil
 		}
-		return e.freshSV(resT, "r_indirect", st.pc, st)
+		rv := e.freshSV(resT, "r_indirect", st.pc, st)
+		if sc, ok := rv.(*Sc); ok && isBoolType(resT) {
+			if _, ok := st.ghost["fvres"]; ok {
+				st.ghost["fvres"] = ite(sc.T, "1", "0")
+			}
+		}
+		return rv
 	}
 	if !ok || f.Fn == nil {
 		panic(engErr("indirect call through an unknown function value at " + e.posStr(pos)))
@@ -165,7 +180,7 @@ func (e *Engine) callAsserts(fr *Frame, st *State, fn *ssa.Function, args []SV, 
 		}
 		t, err := e.tryEvalBool(env, ca.Cl.Expr)
 		if err != nil {
-			panic(engErr(fmt.Sprintf("assert_call %s: %v", ca.Text, err)))
+			panic(fmt.Sprintf("contract error: assert_call %s: %v", ca.Text, err))
 		}
 		ob := e.vc.oblige(fmt.Sprintf("assert_call:%d#", k+1), st.pc, t, fmt.Sprintf("at the call of %s (%s): %s", ca.Text, e.posStr(pos), ca.Cl.Text))
 		ob.Props = ca.Cl.Props
@@ -198,7 +213,7 @@ func (e *Engine) ifaceCallAsserts(fr *Frame, st *State, it types.Type, m *types.
 		}
 		t, err := e.tryEvalBool(env, ca.Cl.Expr)
 		if err != nil {
-			panic(engErr(fmt.Sprintf("assert_call %s: %v", ca.Text, err)))
+			panic(fmt.Sprintf("contract error: assert_call %s: %v", ca.Text, err))
 		}
 		ob := e.vc.oblige(fmt.Sprintf("assert_call:%d#", k+1), st.pc, t, fmt.Sprintf("at the call of %s (%s): %s", ca.Text, e.posStr(pos), ca.Cl.Text))
 		ob.Props = ca.Cl.Props
@@ -1147,4 +1162,9 @@ func (e *Engine) havocClosureEffects(fr *Frame, st *State, fv *FuncSV, seen map[
 			}
 		}
 	}
+}
+
+func isBoolType(t types.Type) bool {
+	b, ok := t.Underlying().(*types.Basic)
+	return ok && b.Info()&types.IsBoolean != 0
 }
